@@ -109,3 +109,106 @@ class SupportedVar:
     @property
     def raw(self):
         return self.drive.supported
+
+
+# ---- controlword / statusword carried by PDO ---------------------------------------------------------------------------
+class PdoLink:
+    """Assumed contract of the PDO transport between the node object and a conformant drive: the RPDO carrying 6040h
+    reaches the drive when it is transmitted (event-driven) or with the next cycle (periodic: before the drive produces
+    its next TPDO); the TPDO carrying 6041h reports the drive's statusword after every state change (event-driven) or
+    every cycle (periodic), and every reception runs the node's callback as PdoMap.on_message does."""
+
+    def __init__(self, drive, node, periodic):
+        self.drive = drive
+        self.node = node
+        self.periodic = periodic
+        self.cw = 0
+        self.cw_pending = False
+        self.sw = 0
+
+    def deliver_controlword(self):
+        if self.cw_pending:
+            self.cw_pending = False
+            before = self.drive.state
+            self.drive.controlword(self.cw)
+            if not self.periodic and self.drive.state != before:
+                self.send_tpdo()
+
+    def send_tpdo(self):
+        self.sw = self.drive.statusword()
+        rt.emit("tpdo", self.sw)
+        self.node.on_TPDOs_update_callback(TpdoMap(self))
+
+
+class RpdoVar:
+    """6040h mapped into an RPDO"""
+    index = 0x6040
+
+    def __init__(self, link):
+        self.link = link
+        self.pdo_parent = RpdoMap(link)
+
+    @property
+    def raw(self):
+        return self.link.cw
+
+    @raw.setter
+    def raw(self, value):
+        self.link.cw = value
+        self.link.cw_pending = True
+
+
+class RpdoMap:
+    def __init__(self, link):
+        self.link = link
+
+    @property
+    def is_periodic(self):
+        return self.link.periodic
+
+    def transmit(self):
+        rt.emit("rpdo", self.link.cw)
+        self.link.deliver_controlword()
+
+
+class TpdoVar:
+    """6041h mapped into a TPDO"""
+    index = 0x6041
+
+    def __init__(self, link):
+        self.link = link
+        self.pdo_parent = TpdoMap(link)
+
+    @property
+    def raw(self):
+        return self.link.sw
+
+
+class TpdoMap:
+    def __init__(self, link):
+        self.link = link
+
+    @property
+    def is_periodic(self):
+        return self.link.periodic
+
+    def __iter__(self):
+        return iter([MappedStatusword(self.link)])
+
+    def wait_for_reception(self, timeout=10):
+        # one cycle: the periodic RPDO (if any) is applied, then the drive produces its TPDO
+        self.link.deliver_controlword()
+        self.link.send_tpdo()
+        return 1.0
+
+
+class MappedStatusword:
+    """the variable the node's reception callback finds in the received TPDO"""
+    index = 0x6041
+
+    def __init__(self, link):
+        self.link = link
+
+    @property
+    def raw(self):
+        return self.link.sw
